@@ -40,8 +40,24 @@ Definition atoi (s : string) : option Z :=
 Definition trim_prefix (p s : string) : string :=
   if has_prefix p s then drop (String.length p) s else s.
 
+(* parseVersionPart: unsigned decimal digits only, then strconv.Atoi *)
+Definition version_part (s : string) : option Z :=
+  match digits s with Some n => if n <=? int_max then Some n else None | None => None end.
+
 (* linter.ParseGoVersion *)
 Definition parse_go_version (s : string) : option version :=
+  let v := trim_prefix "go" s in
+  if String.eqb v "" then Some (0, 0)
+  else match split_on "."%char v with
+       | [a; b] => match version_part a, version_part b with
+                   | Some x, Some y => Some (x, y)
+                   | _, _ => None
+                   end
+       | _ => None
+       end.
+
+(* before repository commit 43195e2 the parts went straight to strconv.Atoi, which accepts a sign *)
+Definition parse_go_version_prefix (s : string) : option version :=
   let v := trim_prefix "go" s in
   if String.eqb v "" then Some (0, 0)
   else match split_on "."%char v with
